@@ -107,7 +107,7 @@ def run(ctx, rep):
                f'day fraction of {k} lies in [{lo:.3f}, {hi:.3f}]' + ('' if ok else
                ': outside [0,1] the event of the previous/next day is reported on the requested date'))
     # through the policy layer: weather reaches a final Fajr/Isha/Asr/Dhuhr only via conv:Shurooq / conv:Maghrib or a recomputation
-    pa = W.get(ctx)
+    pa = W.get(ctx, rep)
     n = 0
     for w in pa.worlds:
         if w.policy != 'None' or not w.final:
